@@ -25,6 +25,10 @@
     (a) the fail-closed recognition of those shapes and (b) the MEASUREMENT by the harness: after every run with a
     non-zero status it inspects the --output path (absent / not a regular file / a file that is not a complete JSON
     document), including a run whose write is made to fail half-way by a fault injected from the harness.
+    The shape of the target tree (empty, only sub-directories, only non-Python or excluded files, symlinks, undecodable
+    files, deep, many files) is not a dimension of the world: [C20_tree_shape_irrelevant] (trivial in the model) records
+    that the chain consults nothing about it; the harness varies it for real, combined with the kind of run and with the
+    failing dimensions, and relies on the generic measurements (escaped exception; non-zero status with a complete report).
     Not modelled: what argparse accepts (an oracle: the harness builds argv per class and observes the real status);
     whether an early-exit option is met before or after an erroneous one on the command line (the harness puts it first). *)
 From CM Require Import Model.Exit Spec.ExitSpec Proofs.ExitFacts Generated.Tables.
@@ -83,6 +87,12 @@ Proof.
   pose proof (exit_table_all repaired_tables) as H. unfold exit_table_statement in H. rewrite E in H. exact H.
 Qed.
 Print Assumptions C20_repaired_exit_table.
+
+(** the status and the report do not depend on what the target tree contains (in the model by construction: the chain
+    consults no oracle about it; on the implementation this is MEASURED over ten tree shapes x five kinds of run) *)
+Theorem C20_tree_shape_irrelevant : forall s1 s2 T w, run_exit_in s1 T w = run_exit_in s2 T w.
+Proof. reflexivity. Qed.
+Print Assumptions C20_tree_shape_irrelevant.
 
 (** what "first applicable condition" means (facts about [documented], hence about the implementation wherever
     [C20_exit_table] is in its positive branch) *)
